@@ -407,8 +407,10 @@ func splitLines(b []byte) [][]byte {
 var TestKeyB64 = base64.StdEncoding.EncodeToString([]byte("0123456789abcdef0123456789abcdef0123456789abcdef0123456789abcdef"))
 
 // parallelDo runs f(i) for i in [0,n) on all cores.
-func parallelDo(n int, f func(i int)) {
-	w := runtime.NumCPU()
+func parallelDo(n int, f func(i int)) { parallelDoN(runtime.NumCPU(), n, f) }
+
+// parallelDoN: at most w workers (for jobs that hold a lot of memory each).
+func parallelDoN(w, n int, f func(i int)) {
 	if w > n {
 		w = n
 	}
